@@ -695,6 +695,7 @@ func Run(cfg *hx.Config) error {
 	enumerateBehaviours(thorough, emit)
 	enumerateDispatch(thorough, emit)
 	enumerateSequences(thorough, emit)
+	enumerateRejections(thorough, emit)
 	for i := 0; i < cfg.N; i++ {
 		if i%3 == 2 {
 			ops, tags := genDispatch(cfg)
